@@ -313,7 +313,9 @@ PROPS = {
         "theorems": [
             "BPT.Props.C09.step_inv", "BPT.Props.C09.reachable_inv", "BPT.Props.C09.capacity_guard",
             "BPT.Props.C09.all_leaves_same_depth", "BPT.Props.C09.root_branch_two_children", "BPT.Props.C09.node_clauses",
-            "BPT.Props.C09.chain_is_leaves",
+            "BPT.Props.C09.chain_is_leaves", "BPT.Props.C09.from_sorted_eq_incremental", "BPT.Props.C09.bulk_fast_path_sound",
+            "BPT.Props.C09.Legacy.py_empty_branch_survives",
+            "BPT.Py.fromSorted_spec", "BPT.Py.insertSorted_spec", "BPT.Py.mapLeaf_last",
             "BPT.Py.insertRec_spec", "BPT.Py.deleteRec_spec", "BPT.Py.handleLeaf_spec", "BPT.Py.handleBranch_spec",
             "BPT.Py.setitem_spec", "BPT.Py.delitem_spec", "BPT.Py.clear_spec", "BPT.Py.pinv_new",
         ],
@@ -323,7 +325,7 @@ PROPS = {
             {"kind": "py", "suite": "py-exh", "quick": {"cases": 300, "len": 3}, "thorough": {"cases": 4000, "len": 4}},
         ],
         "nontrivial": "a case is non-trivial when the tree grew beyond a single leaf and at least one deletion succeeded; the independent structural walk (incl. chain = leaves in order) runs after every mutation and the full structural dump is compared with the model; py-exh enumerates every set/del history of the given depth over 3 keys in the middle of a multi-leaf tree at capacities 4, 5, 6; from_sorted_items cases compare contents and shape with an incremental build; distinct = distinct op-line sequences",
-        "trusted_extra": ["from_sorted_items (the bulk-load fast path through the cached rightmost leaf) is decided by the oracle (contents and shape vs an incremental build, invariants) and by the model/implementation correspondence of `fromsorted`; its Lean theorem is not proved yet"],
+        "trusted_extra": ["that from_sorted_items produces the same SHAPE as the incremental build (beyond the property: same contents + invariants, which are theorems) is checked by the harness only"],
     },
     "C12": {
         "title": "C extension mapping behaves like dict; iterators fail fast on mutation",
